@@ -24,7 +24,7 @@ if os.path.exists(os.path.join(vlib.LEAN_DIR, "Yarel", "Props", "SitesInventory.
     THEOREM_MODULES.append("Yarel.Props.SitesInventory")
     REQUIRED_THEOREMS.append("sites_accounted_run_time")
 # who writes the state the mechanism models are about: the set of write sites per group of fields, regenerated on every run (Props/StateWrites)
-THEOREM_MODULES.append("Yarel.Props.StateWrites")
+THEOREM_MODULES.append("Yarel.Props.StateWrites.writers_of_exception_state")
 REQUIRED_THEOREMS += ['writers_of_exception_state']
 USES_GEN = True
 LEVEL = "proof"
